@@ -460,6 +460,19 @@ func checkC16(ctx *Ctx, c *Case) error {
 		ctx.Label("alias shape=" + c.arg("shape"))
 		ctx.Nontrivial("alias", c.arg("shape"), c.arg("opts"), c.arg("url"), c.Bytes)
 	case "hostile":
+		if digest(c.Bytes, c.arg("url"), "nilany")%64 == 0 {
+			// a nil *anypb.Any is an Any nobody filled in: an error, not a panic
+			fr, tr, name := resolverCombo(c.argInt("resolvers"))
+			var msg proto.Message
+			var err error
+			if perr := safely(func() error { msg, err = anyutil.Unpack(nil, fr, tr); return nil }); perr != nil {
+				return fmt.Errorf("Unpack(nil Any, resolvers=%s) panicked: %v", name, perr)
+			}
+			if msg != nil || err == nil {
+				return fmt.Errorf("Unpack(nil Any, resolvers=%s) returned (%v, %v): want an error", name, msg, err)
+			}
+			ctx.Label("hostile: nil Any")
+		}
 		url := string(unhex(c.arg("url")))
 		a := &anypb.Any{TypeUrl: url, Value: unhex(c.Bytes)}
 		fr, tr, name := resolverCombo(c.argInt("resolvers"))
